@@ -11,4 +11,5 @@ pub mod exception {
 }
 pub mod types {
 //@include frag/types.tpl
+//@include-if client frag/types_client_options.tpl
 }
